@@ -24,6 +24,8 @@ use lspgen::*;
 struct Job {
     idx: usize,
     prog: Prog,
+    /// function body blocks carry byte spans (F6 repaired): the nesting hypothesis of the hover search is claimed too
+    f6_fixed: bool,
 }
 
 #[derive(Default)]
@@ -110,6 +112,12 @@ fn run(job: &Job) -> Out {
         };
         out.cases.push((format!("spantree ident {maxoff} {tree}#p{} {}", job.idx, f.name), render_ids(&idents)));
         out.cases.push((format!("spantree inner {maxoff} {tree}#p{} {}", job.idx, f.name), render_ids(&inners)));
+        // the hypotheses of the search theorems (children inside their parents' ranges, arms disjoint from
+        // later arms, identifier spans pairwise disjoint) are claimed for every parsed file; the model decides them
+        out.cases.push((format!("spantree wf 0 {tree}#p{} {}", job.idx, f.name), "wf nested=1 cut=1 unique=1".to_string()));
+        if job.f6_fixed {
+            out.cases.push((format!("spantree wfi 0 {tree}#p{} {}", job.idx, f.name), "wfi inner=1".to_string()));
+        }
         bump(&mut out, "search:ident-some", idents.iter().filter(|x| x.is_some()).count() as u64);
         bump(&mut out, "search:ident-none", idents.iter().filter(|x| x.is_none()).count() as u64);
         bump(&mut out, "search:inner-some", inners.iter().filter(|x| x.is_some()).count() as u64);
@@ -227,8 +235,26 @@ fn probe_d12() -> bool {
     .unwrap_or(false)
 }
 
+/// does a function body block start where its `{` is (F6 repaired: parse_func_def used the token index as byte offset)?
+fn probe_f6() -> bool {
+    catch_unwind(|| {
+        let src = "// a comment line to push offsets up\nfn f(a: string) -> int {\n  let x = 1\n}\n";
+        let a = check_lsp("main.abra", provider(src, &[]));
+        let brace = src.find('{').unwrap();
+        a.errors().iter().all(|e| e.range.start >= brace || e.range.start >= src.find("fn").unwrap())
+            && a.type_at(0, src.find("fn").unwrap()).is_none()
+    })
+    .unwrap_or(false)
+}
+
 fn main() {
     let mut ctx = Ctx::from_env("C35");
+    let f6_fixed = probe_f6();
+    ctx.notes.push(if f6_fixed {
+        "F6: function body blocks carry byte spans; the nesting hypothesis of the hover-search theorem (`spantree wfi`) is checked on every file".to_string()
+    } else {
+        "F6: parse_func_def still uses the token index as the byte offset of the body block (its span starts before the function), so the nesting hypothesis of the hover-search theorem does not hold on parser output; the unconditional theorem C35_searchI_spec_unconditional applies; `spantree wfi` is not claimed".to_string()
+    });
     let task_ok = probe_task();
     let d12_ok = probe_d12();
     ctx.notes.push(format!(
@@ -237,13 +263,13 @@ fn main() {
         if d12_ok { "gives byte ranges, in the stream" } else { "still shifts ranges, kept out of the stream" }
     ));
     let opts = Opts { task_blocks: task_ok, non_ascii: d12_ok };
-    let n = if ctx.quick() { 160 } else { 4000 };
+    let n = if ctx.quick() { 500 } else { 6000 };
     let mut jobs = vec![];
     for idx in 0..n {
         let seed = ctx.rng.next();
         let mut rng = Rng::new(seed);
         let prog = Gen::new(&mut rng, &opts).program();
-        jobs.push(Job { idx, prog });
+        jobs.push(Job { idx, prog, f6_fixed });
     }
     let outs = par_map(&jobs, run);
     let mut rejected = 0;
